@@ -67,13 +67,43 @@ impl Pfx {
     fn covers(self, o: Pfx) -> bool {
         self.v6 == o.v6 && self.min() <= o.min() && o.max() <= self.max()
     }
+    /// The library value. A filter or assertion means the same whichever way
+    /// its prefix was made, so every public constructor is asked and must
+    /// agree with the strict one: relaxed from an address with host bits
+    /// set, parsed (strict / relaxed), deserialised, generic.
     fn lib(self) -> Result<Prefix, Fail> {
-        if self.v6 {
+        let strict = if self.v6 {
             Prefix::new_v6(Ipv6Addr::from(self.addr.0), self.len)
         } else {
             Prefix::new_v4(Ipv4Addr::from(self.addr.0 as u32), self.len)
         }
-        .map_err(|e| Fail::new(format!("case outside the domain: prefix {:?}: {}", self, e)))
+        .map_err(|e| Fail::new(format!("case outside the domain: prefix {:?}: {}", self, e)))?;
+        // an address inside the prefix with some host bits set
+        let dirty = self.addr.0 | (self.host_mask() & 0x5555_5555_5555_5555_5555_5555_5555_5555u128.rotate_left(self.len as u32 % 2));
+        let (clean_ip, dirty_ip): (std::net::IpAddr, std::net::IpAddr) = if self.v6 {
+            (Ipv6Addr::from(self.addr.0).into(), Ipv6Addr::from(dirty).into())
+        } else {
+            (Ipv4Addr::from(self.addr.0 as u32).into(), Ipv4Addr::from(dirty as u32).into())
+        };
+        let routes: [(&str, Result<Prefix, String>); 5] = [
+            ("new_relaxed (host bits set)", Prefix::new_relaxed(dirty_ip, self.len).map_err(|e| e.to_string())),
+            ("from_str", Prefix::from_str(&format!("{}/{}", clean_ip, self.len)).map_err(|e| e.to_string())),
+            ("from_str_relaxed (host bits set)", Prefix::from_str_relaxed(&format!("{}/{}", dirty_ip, self.len)).map_err(|e| e.to_string())),
+            ("Deserialize", serde_json::from_str::<Prefix>(&format!("\"{}/{}\"", clean_ip, self.len)).map_err(|e| e.to_string())),
+            ("new (generic)", Prefix::new(clean_ip, self.len).map_err(|e| e.to_string())),
+        ];
+        for (how, alt) in routes {
+            match alt {
+                Ok(p) if p == strict && p.addr() == clean_ip && p.len() == self.len => {}
+                other => {
+                    return Err(Fail::sig(
+                        "c15:prefix-constructors-disagree",
+                        format!("prefix {}/{} through {}: {:?}, the strict constructor gives {:?}", clean_ip, self.len, how, other, strict),
+                    ))
+                }
+            }
+        }
+        Ok(strict)
     }
 }
 
